@@ -1,6 +1,7 @@
 import NeoFS.Driver.EC
 import NeoFS.Driver.Int256
 import NeoFS.Driver.Range
+import NeoFS.Driver.Grace
 open NeoFS NeoFS.Driver
 
 /-- State of all stateful models; pure models need none. -/
@@ -14,6 +15,7 @@ def stepLine (s : DState) (line : String) : DState × String :=
   | "ec" => (s, ecStep o)
   | "int256" => (s, int256Step o)
   | "range" => (s, rangeStep o)
+  | "grace" => (s, graceStep o)
   | _ => (s, "=> bad-op")
 
 partial def loop (h : IO.FS.Stream) (out : IO.FS.Stream) (s : DState) : IO Unit := do
